@@ -363,3 +363,22 @@ Fixpoint M_find_ext (ll : list (N * list N)) : N :=
     | None => M_find_ext r
     end
   end.
+
+(* ------------------------------------------------------------------ *)
+(* specification side                                                  *)
+
+(* the bytes [x] sit at position [p] of [data] *)
+Definition starts (data : list N) (p : N) (x : list N) : Prop := exists rest, seek data p = x ++ rest.
+
+(* type invariants of a LookupTable (uint16 fields); a real lookup never has
+   the extension lookup type as its own type *)
+Definition lookup_ok (extT : N) (l : lookup) : Prop :=
+  lk_type l < 65536 /\ lk_flags l < 65536 /\ lk_mfs l < 65536 /\ lk_type l <> extT.
+
+(* what the reader must return for a lookup: type, flags, mark filtering set
+   (written only when the flag is set) and, for every subtable, a position at
+   which exactly that subtable's bytes start *)
+Definition lookup_matches (data : list N) (l : lookup) (o : lookup_obs) : Prop :=
+  lo_type o = lk_type l /\ lo_flags o = lk_flags l /\
+  lo_mfs o = (if use_mfs l then lk_mfs l else 0) /\
+  Forall2 (fun b p => starts data p b) (lk_subs l) (lo_subpos o).
